@@ -16,6 +16,7 @@ import (
 	"seehuhn.de/go/pdf/font/textextract"
 	"seehuhn.de/go/pdf/graphics/extract"
 	"seehuhn.de/go/pdf/nametree"
+	"seehuhn.de/go/pdf/numtree"
 	"seehuhn.de/go/pdf/outline"
 	"seehuhn.de/go/pdf/page"
 	"seehuhn.de/go/pdf/pagetree"
@@ -74,6 +75,8 @@ type walkStats struct {
 	OutlineItems int
 	OutlineErr   bool
 	NameTrees    int
+	NumTrees     int
+	TreeEntries  int
 	SeqOK        bool
 	SeqObjects   int
 	SeqReadErrs  int
@@ -540,43 +543,163 @@ func (w *walker) walkDocument(r *pdf.Reader) {
 			st.OutlineItems = countItems(o.Items, 0)
 		}
 	})
-	w.walkNameTrees(r, meta.Catalog.Names)
+	w.walkTrees(r, meta.Catalog)
 }
 
-// walkNameTrees reads the name trees of the catalog's /Names dictionary.
-func (w *walker) walkNameTrees(r *pdf.Reader, names pdf.Object) {
+// countingGetter counts the Get calls of one tree enumeration and the size
+// (number of values, containers included) of the distinct objects fetched.
+// A walker which visits every node once makes at most one Get per node and
+// one per array element (keys and values given as references), and yields at
+// most one entry per two array elements; both are therefore bounded by size.
+type countingGetter struct {
+	r    pdf.Getter
+	gets int
+	size int
+	seen map[pdf.Reference]bool
+}
+
+func (g *countingGetter) GetMeta() *pdf.MetaInfo { return g.r.GetMeta() }
+
+// treeAbort is thrown by countingGetter.Get when the progress rule is broken
+// between two yields (a walk which revisits interior nodes may go on for
+// 2^60 steps without yielding anything); walkTree catches it.
+type treeAbort struct{}
+
+func (g *countingGetter) Get(ref pdf.Reference, canObjStm bool) (pdf.Native, error) {
+	g.gets++
+	obj, err := g.r.Get(ref, canObjStm)
+	if !g.seen[ref] {
+		g.seen[ref] = true
+		budget := 1 << 22
+		g.size += 1 + objSize(obj, &budget)
+	}
+	if g.gets > 1000+64*g.size {
+		panic(treeAbort{})
+	}
+	return obj, err
+}
+
+func objSize(obj pdf.Object, budget *int) int {
+	if *budget <= 0 {
+		return 0
+	}
+	*budget--
+	n := 1
+	switch x := obj.(type) {
+	case pdf.Array:
+		for _, e := range x {
+			n += objSize(e, budget)
+		}
+	case pdf.Dict:
+		for _, e := range x {
+			n += objSize(e, budget)
+		}
+	case *pdf.Stream:
+		if x != nil {
+			n += objSize(x.Dict, budget)
+		}
+	}
+	return n
+}
+
+const maxTreeEntries = 1 << 20 // entries enumerated per tree (harness bound)
+
+// treeProgress is the progress rule of a tree enumeration: more Get calls or
+// more yielded entries than 1000 + 64 x (size of the distinct objects
+// fetched) means that nodes are visited again and again.
+func (w *walker) treeProgress(what string, g *countingGetter, yields int) bool {
+	bound := 1000 + 64*g.size
+	if g.gets > bound || yields > bound {
+		w.viol = fmt.Errorf("no progress: enumerating %s made %d Get calls and yielded %d entries, but the distinct objects it fetched hold only %d values (bound 1000 + 64 x values = %d): nodes are visited repeatedly",
+			what, g.gets, yields, g.size, bound)
+		return false
+	}
+	return true
+}
+
+// walkTree enumerates one name tree (num == false) or number tree.
+func (w *walker) walkTree(what string, r *pdf.Reader, root pdf.Object, num bool) {
+	if root == nil {
+		return
+	}
 	st := w.st
-	w.step("name trees", func() {
-		c := pdf.NewCursor(r)
-		nd, err := c.Dict(names)
-		if err != nil || nd == nil {
-			return
-		}
-		keys := make([]string, 0, len(nd))
-		for k := range nd {
-			keys = append(keys, string(k))
-		}
-		sort.Strings(keys)
-		for _, k := range keys {
-			root := nd[pdf.Name(k)]
-			_, _ = nametree.Size(r, root)
-			t, err := nametree.ExtractFromFile(r, root)
-			if err != nil || t == nil {
-				continue
+	w.step(what, func() {
+		g := &countingGetter{r: r, seen: map[pdf.Reference]bool{}}
+		n := 0
+		defer func() {
+			if p := recover(); p != nil {
+				if _, ok := p.(treeAbort); !ok {
+					panic(p)
+				}
+				w.treeProgress(what, g, n)
 			}
-			n := 0
+		}()
+		if num {
+			_, _ = numtree.Size(g, root)
+			t, err := numtree.ExtractFromFile(g, root)
+			if err != nil || t == nil {
+				return
+			}
 			for range t.All() {
 				n++
-				if n >= 10000 {
+				if !w.treeProgress(what, g, n) || n >= maxTreeEntries {
+					break
+				}
+			}
+			_, _ = t.Lookup(7)
+		} else {
+			_, _ = nametree.Size(g, root)
+			t, err := nametree.ExtractFromFile(g, root)
+			if err != nil || t == nil {
+				return
+			}
+			for range t.All() {
+				n++
+				if !w.treeProgress(what, g, n) || n >= maxTreeEntries {
 					break
 				}
 			}
 			_, _ = t.Lookup("dest-007")
-			if n > 0 {
+		}
+		if w.viol == nil {
+			w.treeProgress(what, g, n)
+		}
+		if n > 0 {
+			if num {
+				st.NumTrees++
+			} else {
 				st.NameTrees++
 			}
 		}
+		st.TreeEntries += n
 	})
+}
+
+// walkTrees enumerates the name and number trees reachable from the catalog:
+// every entry of /Names, /PageLabels, and /IDTree and /ParentTree of the
+// structure tree root.
+func (w *walker) walkTrees(r *pdf.Reader, cat *pdf.Catalog) {
+	c := pdf.NewCursor(r)
+	var nd pdf.Dict
+	w.step("catalog /Names", func() { nd, _ = c.Dict(cat.Names) })
+	keys := make([]string, 0, len(nd))
+	for k := range nd {
+		keys = append(keys, string(k))
+	}
+	sort.Strings(keys)
+	for _, k := range keys {
+		w.walkTree("name tree /Names /"+k, r, nd[pdf.Name(k)], false)
+		if w.viol != nil {
+			return
+		}
+	}
+	w.walkTree("number tree /PageLabels", r, cat.PageLabels, true)
+	var sd pdf.Dict
+	w.step("catalog /StructTreeRoot", func() { sd, _ = c.Dict(cat.StructTreeRoot) })
+	if sd != nil {
+		w.walkTree("name tree /StructTreeRoot /IDTree", r, sd["IDTree"], false)
+		w.walkTree("number tree /StructTreeRoot /ParentTree", r, sd["ParentTree"], true)
+	}
 }
 
 func countItems(items []*outline.Item, depth int) int {
